@@ -52,35 +52,41 @@ def residue_rule(scope, owner_filter=None, rule="RESIDUE"):
         floor_uni = 250 if scope == "decode" and owner_filter is None else 1
         obs.append(Ob(r, "%s:universe" % scope, uni_in >= floor_uni, "%d potential panic sites (MIR asserts and panicking calls) lie in the %s scope of %d functions" % (uni_in, scope, len(fns))))
         n_res = 0
+        n_std = 0
         for (owner, kind), sites in sorted(grp.items()):
             if owner.startswith("(std)"):
-                in_scope = True
-            else:
-                in_scope = owner in fns
-            if not in_scope:
+                # invariant checks inside instantiated alloc/core generics with no crate frame (BTree nodes, sort, RangeFrom
+                # overflow, allocation failure): not attributable to a crate site; counted, never compared
+                n_std += len(sites)
+                continue
+            if owner not in fns:
                 continue
             if owner_filter and not owner_filter(owner):
                 continue
             n_res += len(sites)
+            # distinct residual *expressions* (source snippets): duplicating an already reviewed expression inside the same
+            # function is neutral, a new unproved expression is not
+            snips = {(s.get("snippet") or s.get("std_loc") or s["pos"])[:100] for s in sites.values()}
             e = led.get((owner, kind))
-            descr = "; ".join(sorted({(s.get("snippet") or s.get("std_loc") or s["pos"])[:70] for s in sites.values()}))[:300]
+            descr = "; ".join(sorted(x[:70] for x in snips))[:300]
             where = sorted(sites)[0]
             if e is None:
                 obs.append(Ob(r, "%s|%s" % (owner, kind), False,
                               "%d residual %s site(s) in %s that the compiler cannot prove unreachable and the ledger does not list: %s" % (len(sites), kind, owner, descr), site=where))
                 continue
-            if len(sites) > e["max_sites"]:
-                known = set(e.get("snippets", []))
-                new = [s for s in sites.values() if (s.get("snippet") or s.get("std_loc") or "")[:100] not in known]
+            known = set(e.get("snippets", []))
+            new = sorted(snips - known)
+            if len(snips) > e["max_sites"] and new:
                 obs.append(Ob(r, "%s|%s" % (owner, kind), False,
-                              "%d residual %s sites in %s, the reviewed ledger allows %d (class %s); new: %s" % (
-                                  len(sites), kind, owner, e["max_sites"], e["class"], "; ".join((s.get("snippet") or s["pos"])[:80] for s in new)[:300] or descr),
-                              site=sorted(s["pos"] for s in (new or sites.values()))[0]))
+                              "%d distinct residual %s expressions in %s, the reviewed ledger allows %d (class %s); new: %s" % (
+                                  len(snips), kind, owner, e["max_sites"], e["class"], "; ".join(x[:80] for x in new)[:300]),
+                              site=sorted(s2["pos"] for s2 in sites.values() if (s2.get("snippet") or s2.get("std_loc") or s2["pos"])[:100] in new)[0]))
                 continue
             undec = e["class"].startswith("not-decided")
             obs.append(Ob(r, "%s|%s" % (owner, kind), True,
-                          "%d residual %s site(s) in %s within the ledger (%d): %s - %s" % (len(sites), kind, owner, e["max_sites"], e["class"], e["reason"][:160]),
+                          "%d residual %s expression(s) in %s within the ledger (%d): %s - %s" % (len(snips), kind, owner, e["max_sites"], e["class"], e["reason"][:160]),
                           site=where, undecided=undec))
+        ctx.note("%s scope: %d residual sites inside instantiated std generics without a crate frame (std-internal / alloc-failure), not compared" % (scope, n_std))
         obs.append(Ob(r, "%s:residue" % scope, True, "%d distinct residual sites in scope; every other potential site was deleted by the optimiser as unreachable" % n_res, info=True))
         ctx.note("%s scope: %d functions, %d potential panic sites, %d residual" % (scope, len(fns), uni_in, n_res))
         return obs
